@@ -377,6 +377,6 @@ def shard(ctx: Ctx):
     quick = ctx.tier == 'quick'
     sizes = gen.Sizes(tables=3, columns=3, indexes=3, enums=2, items=3, refs=6, groups=1, stickies=1, props=1)
     feats = frozenset((c01.strict_features() & c02.strict_features()) - {'multiline_settings_note'})
-    n = 70 if quick else 2500
+    n = 70 if quick else 700
     hyp_run(ctx, 'inert', inert_cases(feats, sizes), lambda c: eval_inert(c, ctx), n)
     hyp_run(ctx, 'capture', capture_cases(feats, sizes), lambda c: eval_capture(c, ctx), n)
